@@ -70,6 +70,7 @@ type Stress struct {
 	Sigs     int  `json:"sigs"`     // extra (bogus, same-tag) RRSIGs put in front of every RRset's real one
 	N3Iter   int  `json:"n3iter"`   // NSEC3 iterations for leaf zones (0 = NSEC)
 	NXQuery  bool `json:"nxQuery"`  // ask a non-existent name (denial path)
+	ManyNS   int  `json:"manyNS"`   // node 1's zone gets this many NS with glue: all but the last never answer
 }
 
 type Case struct {
@@ -207,6 +208,22 @@ func build(c *Case) (*world, error) {
 			w.fan[zn] = nd.Fan
 		default:
 			return nil, fmt.Errorf("unknown node kind %q", nd.Kind)
+		}
+		if c.Stress != nil && c.Stress.ManyNS > 1 && i == 1 && (nd.Kind == "A" || nd.Kind == "CNAME") {
+			cut := &authkit.Cut{Name: zn}
+			for k := 1; k <= c.Stress.ManyNS; k++ {
+				srv := w.dead
+				if k == c.Stress.ManyNS {
+					srv = w.leaf
+				}
+				host := fmt.Sprintf("ns%d.%s", k, zn)
+				cut.NS = append(cut.NS, authkit.NSRR(zn, host, 3600))
+				cut.Glue = append(cut.Glue, authkit.ARR(host, n.AllocGlue(srv), 3600))
+			}
+			if c.Signed {
+				cut.DS = z.DS(3600)
+			}
+			tz.Delegate(cut)
 		}
 		if c.Stress != nil && c.Signed {
 			for k := 0; k < c.Stress.Keys; k++ {
@@ -434,12 +451,18 @@ func (r *runner) waitPrimed(w *world, signed bool, dir string) bool {
 	return false
 }
 
-func (w *world) settle(since time.Time, max time.Duration) (int, int) {
+// settle waits until the scripted servers have been quiet for a moment (detached
+// probes of the request tree may still arrive after the reply). Counting too
+// early can only under-count. first=true returns as soon as anything arrived.
+func (w *world) settle(since time.Time, max time.Duration, first bool) (int, int) {
 	stop := time.Now().Add(max)
 	last, _ := w.count(since)
 	stable := 0
-	for time.Now().Before(stop) && stable < 3 {
-		time.Sleep(120 * time.Millisecond)
+	for time.Now().Before(stop) && stable < 2 {
+		if first && last > 0 {
+			break
+		}
+		time.Sleep(90 * time.Millisecond)
 		c, _ := w.count(since)
 		if c == last {
 			stable++
@@ -451,7 +474,7 @@ func (w *world) settle(since time.Time, max time.Duration) (int, int) {
 	return w.count(since)
 }
 
-func (r *runner) ask(s *server.Server, w *world, qname string, qtype uint16, v Variant, client string) (reply, bool) {
+func (r *runner) ask(s *server.Server, w *world, qname string, qtype uint16, v Variant, client string, first bool) (reply, bool) {
 	q := new(dns.Msg)
 	q.SetQuestion(qname, qtype)
 	if !v.NoEDNS {
@@ -470,7 +493,7 @@ func (r *runner) ask(s *server.Server, w *world, qname string, qtype uint16, v V
 	}
 	rep := reply{Ms: time.Since(start).Milliseconds()}
 	settleMax := time.Duration(r.in.NetTimeoutMs)*time.Millisecond + 900*time.Millisecond
-	rep.Packets, rep.TCP = w.settle(start, settleMax)
+	rep.Packets, rep.TCP = w.settle(start, settleMax, first)
 	if hung || m == nil {
 		return rep, hung
 	}
@@ -531,7 +554,7 @@ func (r *runner) runVariant(c *Case, v Variant) (variantOut, error) {
 		qname = "nope." + baseName(c.Nodes, 1)
 	}
 	var hung bool
-	out.Q1, hung = r.ask(s, w, qname, qtype, v, "203.0.113.9")
+	out.Q1, hung = r.ask(s, w, qname, qtype, v, "203.0.113.9", false)
 	key := fmt.Sprintf("%s/%s", c.ID, v.Label)
 	rp := map[string]any{"case": c, "variant": v}
 	if hung {
@@ -543,7 +566,7 @@ func (r *runner) runVariant(c *Case, v Variant) (variantOut, error) {
 		r.res.Violate("noreply/"+key, fmt.Sprintf("Terminates: the pipeline returned without writing a reply to %s on topology %s variant %s", qname, c.ID, v.Label), rp)
 		return out, nil
 	}
-	out.Q2, hung = r.ask(s, w, qname, qtype, v, "203.0.113.10")
+	out.Q2, hung = r.ask(s, w, qname, qtype, v, "203.0.113.10", true)
 	if hung {
 		r.res.Violate("hang2/"+key, fmt.Sprintf("Terminates: second client got no reply to %s within the deadline on topology %s variant %s", qname, c.ID, v.Label), rp)
 	}
